@@ -396,6 +396,67 @@ def _ordered(t: T) -> List[T]:
 
 
 # --------------------------------------------------------------------- C20.4
+_KNOWN_PARAMS = {
+    "traj_xyz": ["axarr", "traj", "style", "color", "label", "alpha",
+                 "start_timestamp", "length_unit"],
+    "traj_rpy": ["axarr", "traj", "style", "color", "label", "alpha",
+                 "start_timestamp"],
+    "speeds": ["ax", "traj", "style", "color", "label", "alpha",
+               "start_timestamp"],
+}
+
+
+def _later_params(ctx, prog, f):
+    """parameters a plot function gained after the pinned tree, at their
+    defaults (the property describes the documented plots)"""
+    from ..lib import extra_defaults
+    known = _KNOWN_PARAMS[f.name]
+    n = 0
+    while n < len(known) and n < len(f.params) and f.params[n] == known[n]:
+        n += 1
+    ctx.require(n == len(known), f"{f.name}: signature changed "
+                f"({f.params})")
+    extra = extra_defaults(f, known, prog)
+    ctx.require(extra is not None, f"{f.name}: new parameter without a "
+                f"constant default")
+    return extra
+
+
+def _x_cases(x: T, ts: T, st: T, view, timed_only: bool = False) -> bool:
+    """the x values by cases: with timestamps and a start time ts - start,
+    with timestamps only ts, without timestamps the pose index (arange) —
+    whatever the nesting / spelling of the conditionals"""
+    from ..lib import strip_asarray
+
+    def case(timed: bool, start: bool):
+        def assign(a: T):
+            if is_call_to(a, "builtins.isinstance"):
+                return timed
+            if a is st:
+                return start
+            if a.op == "cmp" and a.args[0] in ("Is", "IsNot") and \
+                    a.args[1] is st and a.args[2] is tm.NONE:
+                return start == (a.args[0] == "IsNot")
+            return None
+        t = x
+        for _ in range(6):
+            n = tm.select(t, assign)
+            if n.op == "sub" and n.args[0].op == "ite":
+                # a view taken of a conditional value
+                n = tm.sub(tm.select(n.args[0], assign), n.args[1])
+            if n is t:
+                break
+            t = n
+        return strip_asarray(t)
+    ok = case(True, True) is view(T("binop", "Sub", ts, st)) and \
+        case(True, False) is view(ts)
+    if not timed_only:
+        idx = case(False, False)
+        ok = ok and is_call_to(idx, "numpy.arange") and \
+            is_call_to(case(False, True), "numpy.arange")
+    return bool(ok)
+
+
 def _time_axes(ctx, prog):
     tr = tm.param("traj")
     ts = tm.attr(tr, "timestamps")
@@ -406,7 +467,7 @@ def _time_axes(ctx, prog):
                                         const(i)), ("x", "y", "z")),
             ("traj_rpy", None, ("roll", "pitch", "yaw"))):
         f = prog.func(PL + name)
-        r = Interp(prog, inline=_helpers).run(f)
+        r = Interp(prog, inline=_helpers).run(f, _later_params(ctx, prog, f))
         plots = [e for e in r.of_kind("call")
                  if e.data.get("name") == ".plot"]
         ylab = [e for e in r.of_kind("call")
@@ -415,10 +476,7 @@ def _time_axes(ctx, prog):
                     f"{name}: expected 3 plot rows")
         for i, (e, l) in enumerate(zip(plots, ylab)):
             x, y = e.data["args"][0], e.data["args"][1]
-            alts = tm.strip_ite(x)
-            okx = x.op == "ite" and x.args[1] is shifted and \
-                is_call_to(x.args[2], "numpy.arange") and \
-                is_call_to(x.args[0], "builtins.isinstance")
+            okx = _x_cases(x, ts, st, lambda t: t)
             if name == "traj_xyz":
                 oky = y is ycol(i)
             else:
@@ -446,13 +504,13 @@ def _time_axes(ctx, prog):
                    f"(shifted) timestamps on subplot {i}",
                    key=f"C20.4:{name}:{i}")
     f = prog.func(PL + "speeds")
-    r = Interp(prog, inline=_helpers).run(f)
+    r = Interp(prog, inline=_helpers).run(f, _later_params(ctx, prog, f))
     plots = [e for e in r.of_kind("call") if e.data.get("name") == ".plot"]
     ctx.require(len(plots) == 1, "speeds: plot call not found")
     x, y = plots[0].data["args"][:2]
     s1 = T("slice", const(1), tm.NONE, tm.NONE)
-    want = tm.ite(st, tm.sub(T("binop", "Sub", ts, st), s1), tm.sub(ts, s1))
-    ok = x is want and y is tm.attr(tr, "speeds")
+    ok = _x_cases(x, ts, st, lambda t: tm.sub(t, s1), timed_only=True) and \
+        y is tm.attr(tr, "speeds")
     ctx.ob("C20.4", plots[0], ok,
            "speeds: speed k against the (shifted) timestamp of the newer "
            "pose, timestamps[1:]" if ok else
